@@ -248,6 +248,11 @@ func genCase(t *rapid.T) *Case {
 		base.NoSentinelStr = true
 		sess.Excluded("sentinel-strings")
 	}
+	if sess != nil && sess.ExclusionOn("long-indexed-varchar") {
+		sess.Excluded("long-indexed-varchar")
+	} else {
+		base.VeryLongStr = true
+	}
 	nrows := 0
 	switch rapid.IntRange(0, 5).Draw(t, "size") {
 	case 0:
